@@ -223,6 +223,17 @@ def inputs_rule(ctx, fv):
             okl = not branchy
         else:
             branchy = [x for x in walk(ll["body"]) if x.get("k") in ("if", "match", "continue", "break", "ret")] if ll else [fv.body]
+            if ll is not None and ll.get("k") == "for" and ll.get("iter") is not None:
+                # the iterator the loop runs over may carry the parsing (`lines().map_while(ok).map(parse)`): no
+                # filtering adaptor, no branching closure
+                cur = ll["iter"]
+                while cur is not None and cur.get("k") == "mcall":
+                    if cname(cur).split("::")[-1] not in ("map", "map_while", "lines", "inspect", "into_iter", "iter", "by_ref"):
+                        branchy = branchy or [cur]
+                    for a in cur.get("args", []):
+                        if a.get("k") == "closure":
+                            branchy = branchy or [x for x in walk(a) if x.get("k") in ("if", "match", "continue", "break", "ret")]
+                    cur = cur.get("recv")
             okl = ll is not None and not branchy and fv.in_closure_passed_to(ins[0], lambda c: True) is None
         ctx.check("C08.P", "compute_coverages:every_line_loaded", okl, "every line of the counts table is inserted unconditionally",
                   "the counts-table loader skips or filters lines (`%s` in the loading loop): a k-mer that occurs in the "
@@ -230,6 +241,8 @@ def inputs_rule(ctx, fv):
                   line_of(branchy[0]) if branchy and branchy[0] is not fv.body else line_of(ins[0]))
         # the two fields come from the line in file order: first field -> key, second -> value
         parses = [n for n in walk(ll["body"]) if n.get("k") == "mcall" and cname(n).endswith("::parse")] if ll else []
+        if ll is not None and ll.get("k") == "for" and ll.get("iter") is not None and not parses:
+            parses = [n for n in walk(ll["iter"]) if n.get("k") == "mcall" and cname(n).endswith("::parse")]
         okf = len(parses) == 2 and "u64" in parses[0].get("ty", "") and "u32" in parses[1].get("ty", "")
         ctx.check("C08.P", "compute_coverages:field_order", okf, "field 1 -> k-mer (u64), field 2 -> count (u32)",
                   "loader parses fields as %s" % [p_.get("ty", "")[:40] for p_ in parses], line_of(ins[0]))
